@@ -558,6 +558,11 @@ def cl23(F, R):
             R.bad("CL2", "CL2/%s/Clone-missing" % adt, "(lib)", "%s does not implement Clone" % adt)
         elif not imp[0]["derived"]:
             why = fieldwise_clone(F, adt)
+            # an overridden clone_from is a second definition of "a copy": it must leave `self` equal to the source, which no rule here
+            # establishes for a buffer-reusing implementation (fail closed)
+            cf = [b for b in F.all_bodies() if b.self_adt == adt and b.name == "clone_from" and b.trait and b.trait.endswith("Clone") and b.kind != "Closure"]
+            if why is None and cf:
+                why = "clone_from() is overridden (a buffer-reusing copy: bounds and lengths must be the source's, not the target's)"
             if why is None:
                 R.ok("CL2", imp[0]["span"], "hand-written Clone for %s clones every field / variant payload from the same place (what the derive does)" % adt)
             else:
